@@ -8,6 +8,7 @@ import (
 	"sort"
 	"strconv"
 	"strings"
+	"time"
 
 	"google.golang.org/grpc/codes"
 	"google.golang.org/grpc/metadata"
@@ -22,6 +23,8 @@ import (
 //	ctx   : what else the caller's context carries: "-" or comma separated
 //	          I<md> incoming metadata (the caller is itself serving a request)   D a far deadline
 //	          P a peer and an application value (request-scoped values of the caller's own request)
+//	          K<n> the context the script cancels / whose deadline passes ends WITH A CAUSE (WithCancelCause,
+//	          WithTimeoutCause) of kind n (causeErr)   A<n> the same on an ancestor of the call's context
 //	srv   : server handler ops, comma separated, "-" for none
 //	          H<md> SetHeader   S<md> SendHeader   T<md> SetTrailer   M<n> send message n   R receive
 //	          W block until the call's context ends (a handler waiting on its own event source)
@@ -111,7 +114,57 @@ type callerCtx struct {
 	in       []pair
 	deadline bool
 	values   bool
+	// the call's context ends WITH A CAUSE (context.WithCancelCause / WithTimeoutCause): 'K' = the context the call
+	// is made with, 'A' = an ancestor of it; causeKind = which error (causeErr). 0 = plain contexts.
+	causeAt   byte
+	causeKind int
 }
+
+// causeErr: the cause a caller gives for ending its context. kind 0: an error of its own, 1: a status error,
+// 2: an error wrapping the OTHER context error (a cancel explained by an upstream deadline and vice versa).
+func causeErr(kind int, deadline bool) error {
+	switch kind {
+	case 1:
+		return status.Error(codes.NotFound, "gone")
+	case 2:
+		if deadline {
+			return fmt.Errorf("upstream: %w", context.Canceled)
+		}
+		return fmt.Errorf("upstream: %w", context.DeadlineExceeded)
+	}
+	return errors.New("operator gave up")
+}
+
+// endable gives a context derived from parent that the script can end: by cancel(), or by its deadline when
+// timeout > 0 — plain (WithCancel / WithTimeout), or with a cause given for either end, on the context itself or
+// on an ancestor of the context returned.
+func (cc callerCtx) endable(parent context.Context, timeout time.Duration) (context.Context, context.CancelFunc) {
+	if cc.causeAt == 0 {
+		if timeout > 0 {
+			return context.WithTimeout(parent, timeout)
+		}
+		return context.WithCancel(parent)
+	}
+	var ctx context.Context
+	var cancel context.CancelFunc
+	if timeout > 0 {
+		var stop context.CancelFunc
+		ctx, stop = context.WithTimeoutCause(parent, timeout, causeErr(cc.causeKind, true))
+		cancel = stop
+	} else {
+		var cancelCause context.CancelCauseFunc
+		ctx, cancelCause = context.WithCancelCause(parent)
+		cancel = func() { cancelCause(causeErr(cc.causeKind, false)) }
+	}
+	if cc.causeAt == 'A' {
+		child, cancelChild := context.WithCancel(context.WithValue(ctx, appKey2{}, 1))
+		anc := cancel
+		return child, func() { anc(); cancelChild() }
+	}
+	return ctx, cancel
+}
+
+type appKey2 struct{}
 
 func parseCtx(s string) callerCtx {
 	var cc callerCtx
@@ -124,6 +177,8 @@ func parseCtx(s string) callerCtx {
 			cc.deadline = true
 		case t == "P":
 			cc.values = true
+		case len(t) == 2 && (t[0] == 'K' || t[0] == 'A') && t[1] >= '0' && t[1] <= '2':
+			cc.causeAt, cc.causeKind = t[0], int(t[1]-'0')
 		case strings.HasPrefix(t, "I"):
 			cc.hasIn = true
 			cc.in = parseMD(t[1:])
